@@ -338,8 +338,11 @@ pub proof fn lemma_step_bg(st0: ansi_term::Style, st1: ansi_term::Style, fl0: (b
 //@|     &&& (has_word(w, w.len() as int, "omit"@) ==> r.1) && (has_word(w, w.len() as int, "raw"@) ==> r.2)  // @C12:omit.and.raw.are.honoured.wherever.they.stand
 //@|     &&& (!both_auto(cw) ==> r.1 == has_word(w, w.len() as int, "omit"@) && r.2 == has_word(w, w.len() as int, "raw"@))  // @C12:omit.and.raw.come.from.the.default.only.for.auto.auto
 //@|     &&& r.3 == (cw.len() >= 1 && syntax_of(cw[0], default))  // @C12:syntax.highlighting.is.asked.for.by.the.foreground.word.only
+//@|     &&& (both_auto(cw) ==> r.1 == (has_word(w, w.len() as int, "omit"@) || (default matches Some(d) && d.is_omitted)) && r.2 == (has_word(w, w.len() as int, "raw"@) || (default matches Some(d) && d.is_raw)))  // @C12:auto.auto.takes.omit.and.raw.from.the.default.style.and.from.nothing.when.there.is.none
 //@| }),
 //@before <<<if foreground_is_auto>>>| proof { reveal(ps_inv); }
+//@rewrite <<<|s| s.is_omitted>>> => <<<|s: Style| -> (b: bool) ensures b == s.is_omitted { s.is_omitted }>>>
+//@rewrite <<<|s| s.is_raw>>> => <<<|s: Style| -> (b: bool) ensures b == s.is_raw { s.is_raw }>>>
 
 // ---------------------------------------------------------------- _extract_special_decoration_attributes: which words are taken out of a style string
 /// mirror of the bitflags type DecorationAttributes (EMPTY 0, BOX 1, OVERLINE 2, UNDERLINE 4), opaque but for its bits
